@@ -327,6 +327,23 @@ Real piece_at(const Spline<Real, o> &s, const std::vector<Real> &g, size_t gi, c
   }
   return r;
 }
+// k-th derivative of the stored piece on absolute interval gi at the point x (power sum about the midpoint)
+template <size_t o>
+Real piece_deriv_at(const Spline<Real, o> &s, const std::vector<Real> &g, size_t gi, size_t k, const Real &x) {
+  const auto &sup = s.getSupport();
+  size_t st = sup.getStartIndex(), en = sup.getEndIndex();
+  if (en < st + 2 || gi < st || gi + 1 >= en) return Real(0);
+  Real xm = (g[gi] + g[gi + 1]) / Real(2), dx = x - xm, r(0);
+  const auto &c = s.getCoefficients().at(gi - st);
+  for (size_t j = k; j <= o; j++) {
+    Real f(1), pw(1);
+    for (size_t q = 0; q < k; q++) f = f * Real((long long)(j - q));
+    for (size_t q = 0; q < j - k; q++) pw = pw * dx;
+    r = r + c[j] * f * pw;
+  }
+  return r;
+}
+
 // structural invariants (C10): window valid, one coefficient array per interval
 template <size_t o>
 bool shape_ok(const Spline<Real, o> &s, size_t n) {
